@@ -212,16 +212,26 @@ def r3(ctx):
                       "left child on the zero-bit edge, right child on the other", key="C01.R3:%s:polarity" % fname)
             # level: argument of the test and what is handed down
             if fname == "pfx_table_validate_r":
-                g = fn.inst(vf.strip_casts(fn, [c for c in fn.calls("lrtr_ip_addr_get_bits")][0].ref)) or fn.calls("lrtr_ip_addr_get_bits")[0]
                 g = fn.calls("lrtr_ip_addr_get_bits")[0]
-                lv = vf.expr(fn, g.args[-2])
                 key_ok = vf.expr(fn, g.args[-3]) == ("arg", 4) and vf.expr(fn, g.args[-1]) == ("c", 1)
-                al = lv[1] if lv[0] == "load" else None
-                incs = [i for i in fn.all_insts() if i.op == "store" and vf.expr(fn, i["ptr"]) == al and
-                        vf.expr(fn, i["val"]) == ("bin", "add", ("load", al), ("c", 1))]
-                lvl_ok = al is not None and len(incs) == 1 and fn.dom(incs[0], br) and incs[0].block.id == g.block.id
-                nxt = [c for c in fn.calls("trie_lookup") if fn.dom(t, c)]
-                pass_ok = bool(nxt) and all(vf.expr(fn, c.args[3]) == al and vf.expr(fn, c.args[1]) == ("arg", 4) and vf.expr(fn, c.args[2]) == ("arg", 5) for c in nxt)
+                lks = fn.calls("trie_lookup")
+                al = vf.expr(fn, lks[0].args[3]) if lks else None
+                pass_ok = bool(lks) and all(vf.expr(fn, c.args[3]) == al and vf.expr(fn, c.args[1]) == ("arg", 4) and vf.expr(fn, c.args[2]) == ("arg", 5) for c in lks)
+                # evaluated, not matched: every lookup leaves the depth of the node it returned in the level variable (here: 7);
+                # the bit tested to choose the child is then bit 7, and the lookup below that child starts at depth 8
+                seen = {"bits": [], "next": []}
+
+                def cl(inst, E, st, al=al, seen=seen):
+                    if inst.op == "call" and inst.callee == "lrtr_ip_addr_get_bits":
+                        seen["bits"].append(flow.av_single(E.val(inst.args[-2])))
+                        return ["=tested:1"]
+                    if inst.op == "call" and inst.callee == "trie_lookup":
+                        if st.get("tested") == "1":
+                            seen["next"].append(flow.av_single(E.facts.get(("M", al))))
+                        return [(["=tested:0"], {("M", al): flow.av_in(7)})]
+                    return None
+                es.count_effects(fn, pdb, cl, None, cap=64)
+                lvl_ok = al is not None and bool(seen["bits"]) and bool(seen["next"]) and set(seen["bits"]) == {7} and set(seen["next"]) == {8}
                 ctx.check(key_ok and lvl_ok and pass_ok, "C01.R3", "%s:level" % fname, g.loc(),
                           "bit <lvl> of the queried prefix, lvl incremented once per descent, child lookups continue with that lvl and the same query", key="C01.R3:%s:level" % fname)
             else:
@@ -229,6 +239,13 @@ def r3(ctx):
                 rec = [c for c in fn.calls(fname) if fn.dom(t, c)]
                 if rec:
                     lvl_ok = all(vf.expr(fn, c.args[-1]) == ("bin", "add", larg, ("c", 1)) for c in rec)
+                elif larg[0] == "phi":
+                    # an iterative descent with the level in a local: every value that reaches the loop variable from inside the
+                    # loop is level + 1 (the others are its initial value)
+                    ph = fn.inst("%%%d" % larg[1])
+                    incs = [vf.expr(fn, v) for v, b in ph["inc"]]
+                    inner = [e for e in incs if vf.mentions(e, lambda x: x == larg)]
+                    lvl_ok = bool(inner) and all(e == ("bin", "add", larg, ("c", 1)) for e in inner)
                 else:
                     st = [i for i in fn.all_insts() if i.op == "store" and ("load", vf.expr(fn, i["ptr"])) == larg]
                     lvl_ok = any(vf.expr(fn, i["val"]) == ("bin", "add", larg, ("c", 1)) for i in st)
@@ -379,6 +396,13 @@ def r4(ctx, retsets):
                 v = flow.av_single(E.val(inst["val"]))
                 stores.append((inst, v, dict(st)))
                 return ["=res:%s" % inv.get(v, v)]
+            if inst.op == "store" and vf.expr(fn, inst["ptr"]) == ("arg", 2):
+                # the reason count is an output: the first value written to it must not be built from what the caller passed in
+                # (the reasons of an earlier answer would stay in front of this answer's covering records)
+                if st.get("rlw") != "1" and vf.mentions(vf.expr(fn, inst["val"]), lambda x: x == ("load", ("arg", 2))):
+                    problems.append((inst, "the number of reasons is extended from the value the caller passed in (*reason_len is read before it "
+                                           "was written): records of an earlier answer are reported in front of the covering records"))
+                return ["=rlw:1"]
             return None
         cell = {("arg", 1): (("nin", frozenset([0])) if want_reason else 0), ("arg", 2): (("nin", frozenset([0])) if want_reason else 0)}
         cell = {1: cell[("arg", 1)], 2: cell[("arg", 2)]}
@@ -496,12 +520,12 @@ def r7(ctx):
 
         def cl(inst, E, st):
             if inst.op == "call" and inst.callee == "lrtr_get_bits":
-                e = vf.expr(f6, inst.args[0])
+                e = E._concretise(vf.expr(f6, inst.args[0]))   # addr[i] inside a loop over the words: i as it is on this path
                 w = e[1][2][1] if e[0] == "load" and e[1][0] == "idx" and e[1][1] == ("fld", ("arg", 0), "lrtr_ipv6_addr.addr") and e[1][2][0] == "c" else None
                 dst = None
                 for u in f6.uses(inst.ref):
                     if u.op == "store":
-                        de = vf.expr(f6, u["ptr"])
+                        de = E._concretise(vf.expr(f6, u["ptr"]))
                         if de[0] == "idx" and de[2][0] == "c":
                             dst = de[2][1]
                 calls.append((w, dst, flow.av_single(E.val(inst.args[1])), flow.av_single(E.val(inst.args[2]))))
@@ -637,4 +661,9 @@ WITNESSES = [
      "old": "\t\tresult.addr[1] = lrtr_get_bits(val->addr[1], fr, q);", "new": "\t\tresult.addr[1] = lrtr_get_bits(val->addr[0], fr, q);"},
     {"id": "C01.w19-every-reason-from-the-first-element", "rule": "C01.R4", "file": TP,
      "old": "\t\trecords[i].asn = data->ary[i].asn;", "new": "\t\trecords[i].asn = data->ary[0].asn;"},
+    {"id": "C01.w-reason-count-extended-from-input", "rule": "C01.R4", "file": TP,
+     "old": "\t\t*reason_len = ((struct node_data *)node->data)->len;\n\t\t*reason = lrtr_realloc(*reason, *reason_len * sizeof(struct pfx_record));",
+     "new": "\t\t*reason_len += ((struct node_data *)node->data)->len;\n\t\t*reason = lrtr_realloc(*reason, *reason_len * sizeof(struct pfx_record));"},
+    {"id": "C01.w-validate-descends-without-level-step", "rule": "C01.R3", "file": TP,
+     "old": "\t\t\t    prefix, lvl++,\n", "new": "\t\t\t    prefix, lvl,\n"},
 ]
